@@ -20,13 +20,14 @@ import (
 )
 
 var (
-	prop    = flag.String("prop", "", "property id (C07, C08, C09)")
-	tier    = flag.String("tier", "quick", "quick|thorough")
-	driver  = flag.String("driver", "", "path to the Lean compile driver")
-	out     = flag.String("out", "", "report file")
-	replay  = flag.String("replay", "", "replay file")
-	corpus  = flag.String("corpus", "", "corpus directory")
-	childFl = flag.Bool("child", false, "internal: run as compile/generate child")
+	prop     = flag.String("prop", "", "property id (C07, C08, C09)")
+	tier     = flag.String("tier", "quick", "quick|thorough")
+	driver   = flag.String("driver", "", "path to the Lean compile driver")
+	out      = flag.String("out", "", "report file")
+	probe386 = flag.String("probe386", "", "C09: the int32probe binary built for GOARCH=386")
+	replay   = flag.String("replay", "", "replay file")
+	corpus   = flag.String("corpus", "", "corpus directory")
+	childFl  = flag.Bool("child", false, "internal: run as compile/generate child")
 )
 
 // modelFuel is the nesting depth the model may use before its verdict is
